@@ -194,7 +194,38 @@ fn type_last_ident(t: &syn::Type) -> Option<String> {
 fn find_item(items: &[syn::Item], sel: &[String], nth: &mut usize) -> Option<Found> {
     // selectors: ["fn", NAME] | ["impl", TYPE, "fn", NAME] | ["impl", TRAIT, "for", TYPE, "fn", NAME]
     //          | ["const"|"struct"|"enum"|"static"|"type", NAME] | ["mod", M, ...rest]
+    // items declared inside a function / method body (local visitor structs and their impls)
+    fn body_items(b: &syn::Block) -> Vec<syn::Item> {
+        b.stmts.iter().filter_map(|s| if let syn::Stmt::Item(i) = s { Some(i.clone()) } else { None }).collect()
+    }
     match sel[0].as_str() {
+        "infn" => {
+            for it in items {
+                if let syn::Item::Fn(f) = it {
+                    if f.sig.ident == sel[1] { return find_item(&body_items(&f.block), &sel[2..], nth); }
+                }
+            }
+            None
+        }
+        "inmethod" => {
+            // inmethod TRAIT for TYPE NAME rest...   |   inmethod TYPE NAME rest...
+            let (tr, ty, name, rest) = if sel.len() > 4 && sel[2] == "for" {
+                (Some(sel[1].clone()), sel[3].clone(), sel[4].clone(), &sel[5..])
+            } else { (None, sel[1].clone(), sel[2].clone(), &sel[3..]) };
+            for it in items {
+                if let syn::Item::Impl(im) = it {
+                    if type_last_ident(&im.self_ty).as_deref() != Some(ty.as_str()) { continue; }
+                    let this_tr = im.trait_.as_ref().and_then(|(_, p, _)| p.segments.last().map(|s| s.ident.to_string()));
+                    if this_tr != tr { continue; }
+                    for ii in &im.items {
+                        if let syn::ImplItem::Fn(f) = ii {
+                            if f.sig.ident == name { return find_item(&body_items(&f.block), rest, nth); }
+                        }
+                    }
+                }
+            }
+            None
+        }
         "mod" => {
             for it in items {
                 if let syn::Item::Mod(m) = it {
@@ -604,7 +635,9 @@ fn main() {
         };
         let src_lines: Vec<&str> = src.lines().collect();
         let mut n = norm::Norm::new(d.from_fn.clone());
+        n.map_kind = d.opts.iter().find_map(|o| o.strip_prefix("map=").map(|v| v.to_string()));
         let mut canary: Option<String> = None;
+        let mut fn_attrs_done = false;
         let (printed, span, nloops, nrets) = match found {
             Found::Other(mut it) => {
                 let sp = span_lines(it.span());
@@ -615,12 +648,14 @@ fn main() {
                     if f.0 > 0 { n.rules.push(norm::RuleApp { rule: "N23".into(), line: sp.0, note: format!("{} literal shift(s) folded", f.0) }); }
                 }
                 // structs: every field made `pub` (the unit is one crate; privacy is not what is being verified)
+                if let syn::Item::Enum(en) = &mut it { en.vis = syn::Visibility::Public(Default::default()); }
                 if let syn::Item::Struct(st) = &mut it {
-                    let mut widened = false;
+                    let mut widened = !matches!(st.vis, syn::Visibility::Public(_));
+                    st.vis = syn::Visibility::Public(Default::default());
                     for f in st.fields.iter_mut() {
                         if !matches!(f.vis, syn::Visibility::Public(_)) { f.vis = syn::Visibility::Public(Default::default()); widened = true; }
                     }
-                    if widened { n.rules.push(norm::RuleApp { rule: "N12".into(), line: sp.0, note: "private struct fields made pub in the unit".into() }); }
+                    if widened { n.rules.push(norm::RuleApp { rule: "N12".into(), line: sp.0, note: "struct and its fields made pub in the unit".into() }); }
                 }
                 // const/static items: elided reference lifetimes are 'static (made explicit for the verus! macro)
                 {
@@ -661,6 +696,9 @@ fn main() {
             Found::Fn(mut f) => {
                 let sp = span_lines(f.span());
                 f.attrs.clear();
+                if !d.attrs.trim().is_empty() {
+                    if let Ok(a) = syn::parse::Parser::parse_str(syn::Attribute::parse_outer, &d.attrs) { f.attrs = a; fn_attrs_done = true; }
+                }
                 if let Some(r) = &d.rename {
                     f.sig.ident = syn::Ident::new(r, f.sig.ident.span());
                 }
@@ -675,6 +713,9 @@ fn main() {
             Found::Method { mut imp, mut f } => {
                 let sp = span_lines(f.span());
                 f.attrs.clear();
+                if !d.attrs.trim().is_empty() {
+                    if let Ok(a) = syn::parse::Parser::parse_str(syn::Attribute::parse_outer, &d.attrs) { f.attrs = a; fn_attrs_done = true; }
+                }
                 if let Some(r) = &d.rename {
                     f.sig.ident = syn::Ident::new(r, f.sig.ident.span());
                 }
@@ -733,7 +774,7 @@ fn main() {
             }
         };
         let l0 = cur_line(&out);
-        if !d.attrs.trim().is_empty() {
+        if !d.attrs.trim().is_empty() && !fn_attrs_done {
             out.push_str(d.attrs.trim_end());
             out.push('\n');
         }
